@@ -433,6 +433,12 @@ func (c *control) scanDirBlock(buf []byte, pos int, dirName string, open, close 
 				colon = true
 			case '@':
 				at = true
+			case '-', '+', '0', '1', '2', '3', '4', '5', '6', '7', '8', '9', ',', 'v', 'V', '#':
+				// prefix parameters, remain in tilde
+			case '\'':
+				// a quoted character parameter, skip the character and remain in tilde
+				_, size := utf8.DecodeRune(buf[pos:])
+				pos += size
 			case open:
 				pos = c.scanDirBlock(buf, pos, dirName, open, close, colonOk) + 2
 				tilde = false
@@ -1526,6 +1532,12 @@ func (c *control) scanCond(buf []byte, pos int) ([]string, string, int) {
 				colon = true
 			case '@':
 				at = true
+			case '-', '+', '0', '1', '2', '3', '4', '5', '6', '7', '8', '9', ',', 'v', 'V', '#':
+				// prefix parameters, remain in tilde
+			case '\'':
+				// a quoted character parameter, skip the character and remain in tilde
+				_, size := utf8.DecodeRune(buf[pos:])
+				pos += size
 			case ';':
 				strs = append(strs, string(buf[start:pos-2]))
 				start = pos
